@@ -426,7 +426,7 @@ class _DefinitionGenerator:
         call_info = functionutils.CallInfo.read(
             primary, pyname, self.definition_info, call
         )
-        paramdict = self.definition_params
+        paramdict = dict(self.definition_params)
         mapping = functionutils.ArgumentMapping(self.definition_info, call_info)
         for param_name, value in mapping.param_dict.items():
             paramdict[param_name] = value
